@@ -109,7 +109,7 @@ where
 
     if a_scale > 0 {
         let shift: usize = (a_scale as usize).min(a_size);
-        let sum_size: usize = a_size.min(res_size).saturating_sub(shift);
+        let sum_size: usize = (a_size - shift).min(res_size);
         for j in 0..sum_size {
             BE::reim_add_assign(res.at_mut(res_col, j), a.at(a_col, j + shift));
         }
